@@ -2,19 +2,40 @@ package main
 
 const amrLemma = " The fan-out helper's protocol conformance (R1) is re-checked as a lemma because termination and exactly-once mapping of every AsyncMapReduce call site rest on it."
 
+type scope struct {
+	label string
+	roots []string
+}
+
+var (
+	scHTTP       = scope{"http", []string{"pebbles.(*Gateway).queryHandler"}}
+	scDownstream = scope{"downstream", []string{"executor.(ParallelExecutor).Execute", "queryer.(*MultiOpQueryer).Query"}}
+	scMerger     = scope{"merger", []string{"merger.(ExtendMergerFunc).Merge", "merger.(SanitizeNodeMergerFunc).Merge"}}
+	scStartup    = scope{"startup", []string{"pebbles.NewGateway"}}
+	scSubEvent   = scope{"sub-event", []string{"pebbles.(*subscriptionEntry).Listen", "pebbles.(*Gateway).newSubscriptionEntry"}}
+	scSubTear    = scope{"sub-teardown", []string{"pebbles.(*Gateway).subscriptionHandler", "pebbles.(*subscriptionEntry).Listen", "pebbles.(*subscriptionEntry).Close", "queryer.(*MultiOpQueryer).Subscribe"}}
+	scUpload     = scope{"upload", []string{"requests.Parse", "queryer.(*MultiOpQueryer).fetchFile"}}
+	scIntrospect = scope{"introspect", []string{"introspection.(*ParallelRemoteSchemaIntrospector).IntrospectRemoteSchemas"}}
+	scQueryer    = scope{"queryer", []string{"queryer.(*MultiOpQueryer).Query"}}
+)
+
+func r7(s scope) ruleFn { return rulePanic(panicScope{label: s.label, roots: s.roots}) }
+func r6(s scope, min int) ruleFn {
+	return ruleErr(errScope{label: s.label, roots: s.roots, min: min})
+}
+
 func init() {
-	register("C07", "panic-freedom obligations (R7) over every function reachable from the HTTP handler."+amrLemma,
-		rulePanic(panicScope{label: "http", roots: []string{"pebbles.(*Gateway).queryHandler"}}), ruleAMR)
-	register("C09", "R7 over downstream response handling."+amrLemma,
-		rulePanic(panicScope{label: "downstream", roots: []string{"executor.(ParallelExecutor).Execute", "queryer.(*MultiOpQueryer).Query"}}), ruleAMR)
-	register("C05", "R7 over the merger.",
-		rulePanic(panicScope{label: "merger", roots: []string{"merger.(ExtendMergerFunc).Merge", "merger.(SanitizeNodeMergerFunc).Merge"}}))
-	register("C17", "R7 over the per-event path.",
-		rulePanic(panicScope{label: "sub-event", roots: []string{"pebbles.(*subscriptionEntry).Listen", "pebbles.(*Gateway).newSubscriptionEntry"}}))
-	register("C18", "R7 over the websocket handler and teardown.",
-		rulePanic(panicScope{label: "sub-teardown", roots: []string{"pebbles.(*Gateway).subscriptionHandler", "pebbles.(*subscriptionEntry).Listen", "pebbles.(*subscriptionEntry).Close", "queryer.(*MultiOpQueryer).Subscribe"}}))
-	register("C19", "R7 over upload parsing and re-encoding.",
-		rulePanic(panicScope{label: "upload", roots: []string{"requests.Parse", "queryer.(*MultiOpQueryer).fetchFile"}}))
-	register("C15", "R7 over schema reconstruction.",
-		rulePanic(panicScope{label: "introspect", roots: []string{"introspection.introspectRemoteSchema"}}))
+	register("C07", "panic-freedom obligations (R7) over every function reachable from the HTTP handler."+amrLemma, r7(scHTTP), r6(scHTTP, 40), ruleAMR)
+	register("C09", "R7 over downstream response handling."+amrLemma, r7(scDownstream), r6(scDownstream, 15), ruleAMR)
+	register("C05", "R7 over the merger.", r7(scMerger), r6(scStartup, 10))
+	register("C17", "R7 over the per-event path.", r7(scSubEvent), r6(scSubEvent, 5))
+	register("C18", "R7 over the websocket handler and teardown.", r7(scSubTear), r6(scSubTear, 10))
+	register("C19", "R7 over upload parsing and re-encoding.", r7(scUpload), r6(scUpload, 10))
+	register("C15", "R7 over schema reconstruction.", r7(scIntrospect), r6(scIntrospect, 5))
+	register("C11", "", r6(scQueryer, 8), ruleAMR)
+	detectors := []ruleFn{ruleErrorsBeforeData("queryer.(*MultiOpQueryer).queryBatch", "pebbles.(*subscriptionEntry).prepareResponse"), ruleStatusCheck, ruleCountCheck, ruleNodeChecks}
+	register("C10", "", ruleGate, ruleCallers(nil), ruleGoSites, r6(scHTTP, 40), detectors[0])
+	register("C09", "", detectors...)
+	register("C17", "", detectors[0])
+	register("X6", "debug: R6 over whole module", ruleErr(errScope{label: "all", pkgs: []string{"pebbles", "common", "executor", "format", "gqlerrors", "introspection", "merger", "planner", "queryer", "requests"}}))
 }
